@@ -39,10 +39,12 @@ TRUSTED = [
     "(qutip's step interpolation applies its own tolerance next to grid points)",
 ]
 ASSUMES = [
-    "theorems assume inputs_okb: tol >= 0, every array pulse has a strictly increasing grid of >= 2 points and "
-    "len(coeff) in {len(tlist)-1, len(tlist)}, distinct grid points of all pulses further apart than tol",
-    "one-point grids raise IndexError in _fill_coeff (rejected, outside the theorems)",
-    "the model describes the tree with fixes/C14-step-last-sample.diff and fixes/C14-read-coeff.diff applied",
+    "theorems assume inputs_okb: tol >= 0, every array pulse has a NON-DECREASING grid (repeated time points "
+    "allowed) of >= 1 point and len(coeff) in {len(tlist)-1, len(tlist)}, distinct grid points of all pulses "
+    "further apart than tol",
+    "the solver-side oracles (QobjEvo operator, solver, save/reload) run only on strictly increasing grids",
+    "the model describes the tree with fixes/C14-step-last-sample.diff, fixes/C14-read-coeff.diff and "
+    "fixes/C14-fill-coeff-repeated-points.diff applied",
 ]
 
 TOL = Fraction(1e-10)           # exact value of the double used by the code
@@ -126,7 +128,8 @@ def in_theorem_domain(inp):
             if tl is None:
                 return False
             t = [fr(x) for x in tl]
-            if len(t) < 2 or any(t[i] >= t[i + 1] for i in range(len(t) - 1)):
+            # non-decreasing grid with at least one point (a repeated time point = zero-duration slot)
+            if len(t) < 1 or any(t[i] > t[i + 1] for i in range(len(t) - 1)):
                 return False
             if len(co) not in (len(t) - 1, len(t)):
                 return False
@@ -139,13 +142,14 @@ def in_theorem_domain(inp):
 
 
 def in_property_domain(inp):
-    """the quantifier of the property: array pulses whose grids start at zero"""
+    """the quantifier of the property: array pulses whose (strictly increasing) grids start at zero"""
     if not in_theorem_domain(inp):
         return False
     for ch in inp["channels"]:
         if not isinstance(ch["coeff"], list):
             return False
-        if fr(ch["tlist"][0]) != 0:
+        t = [fr(x) for x in ch["tlist"]]
+        if t[0] != 0 or len(t) < 2 or any(t[i] >= t[i + 1] for i in range(len(t) - 1)):
             return False
     return True
 
@@ -283,7 +287,8 @@ Definition run (ps : list pulse) :=
    option_map (map el) (get_full_coeffs tol ps),
    option_map (map (fun s => (eq_ (fst s), el (snd s)))) (run_slices tol ps),
    inputs_okb tol ps,
-   option_map (map el) (get_full_coeffs_v0 tol ps)).
+   option_map (map el) (get_full_coeffs_v0 tol ps),
+   option_map (map el) (get_full_coeffs_v1 tol ps)).
 Definition runfile (inct : bool) (labels : list string) (ps : list pulse) :=
   match get_full_tlist tol ps, get_full_coeffs tol ps with
   | Some full, Some rows =>
@@ -349,14 +354,15 @@ def run_models(ctx_name, cases, filecases):
         raise Broken("coq-eval:c14", "expected %d results, got %d" % (len(cases), len(res)))
     models = []
     for r in res:
-        full, rows, sl, okb, rows0 = r
+        full, rows, sl, okb, rows0, rows1 = r
         models.append(dict(
             full=dec_opt(full, dec_list),
             rows=dec_opt(rows, lambda x: [dec_list(y) for y in x]),
             # ((num, den), coeffs) is printed by Coq as the flat triple (num, den, coeffs)
             slices=dec_opt(sl, lambda x: [(qv((s[0], s[1])), dec_list(s[2])) for s in x]),
             okb=okb,
-            rows_v0=dec_opt(rows0, lambda x: [dec_list(y) for y in x])))
+            rows_v0=dec_opt(rows0, lambda x: [dec_list(y) for y in x]),
+            rows_v1=dec_opt(rows1, lambda x: [dec_list(y) for y in x])))
     fres = []
     if filecases:
         fres = parse_evals(outs["c14_%s_file" % ctx_name])
@@ -696,6 +702,32 @@ def gen_shared_labels(rng):
     return inp
 
 
+def gen_repeated(rng):
+    """pulse grids that repeat a time point (zero-duration slots, as compiled for a rotation by angle 0), possibly
+    several times, at the start, inside or at the end; sometimes points closer than the tolerance instead"""
+    inp = gen_valid(rng, nch=rng.choice([1, 2, 2, 3]))
+    near = rng.random() < 0.25
+    for ch in inp["channels"]:
+        if ch is not inp["channels"][0] and rng.random() < 0.4:
+            continue
+        tl = [fr(x) for x in ch["tlist"]]
+        cf = [fr(x) for x in ch["coeff"]]
+        for _ in range(rng.choice([1, 1, 2, 3])):
+            i = rng.randrange(len(tl))
+            eps = rng.choice([EPS_BELOW, EPS_BELOW / 4]) if near else Fraction(0)
+            tl.insert(i + 1, tl[i] + eps)            # zero-length (or sub-tolerance) interval i
+            cf.insert(min(i, len(cf)), Fraction(rng.choice([-13, 5, 9, 17]), 8))
+            if near:
+                tl[i + 2:] = [x + eps for x in tl[i + 2:]]
+        ch["tlist"] = [enc(x) for x in tl]
+        ch["coeff"] = [enc(x) for x in cf]
+    if rng.random() < 0.15:                           # a one-point grid next to the others
+        ch = inp["channels"][-1]
+        ch["tlist"] = ch["tlist"][:1]
+        ch["coeff"] = ch["coeff"][:rng.choice([0, 1])]
+    return inp
+
+
 def gen_consts(rng):
     """array pulses mixed with constant pulses (coeff=True/False, or no coefficient at all)"""
     inp = gen_valid(rng, nch=rng.choice([2, 3, 4]))
@@ -815,6 +847,14 @@ def branch_tags(inp):
     kws = [json.dumps(pulse_label_kw(c), sort_keys=True) for c in chans] if inp.get("mode", "direct") == "direct" else []
     if len(set(kws)) < len(kws):
         tags.add("pulses sharing a label")
+    for c in arr:
+        t = [fr(x) for x in c["tlist"]]
+        if any(t[i] == t[i + 1] for i in range(len(t) - 1)):
+            tags.add("repeated time point inside a pulse")
+        if any(0 < t[i + 1] - t[i] <= TOL for i in range(len(t) - 1)):
+            tags.add("points closer than tol inside a pulse")
+        if len(t) == 1:
+            tags.add("one-point grid")
     if inp.get("ctrl_order") and inp["ctrl_order"] != list(range(len(chans))):
         tags.add("pulse order != add_control order")
     if [c["label"] for c in chans] != sorted(c["label"] for c in chans):
@@ -853,6 +893,8 @@ def correspond(ctx):
         inputs.append(("leak-family", leak_family(rng)))
     for _ in range(ctx.n(70, 500)):
         inputs.append(("shared-labels", gen_shared_labels(rng)))
+    for _ in range(ctx.n(90, 700)):
+        inputs.append(("repeated-points", gen_repeated(rng)))
     for _ in range(ctx.n(50, 400)):
         inputs.append(("constants", gen_consts(rng)))
     for _ in range(ctx.n(80, 600)):
@@ -876,6 +918,7 @@ def correspond(ctx):
     n_solver = ctx.n(16, 100)
     impls = {}
     saw_v0 = 0
+    saw_v1 = 0
     for idx, ((kind, inp), mod) in enumerate(zip(step_cases, models)):
         corr.tally(kind)
         impl, proc, mats = run_impl(inp)
@@ -887,7 +930,9 @@ def correspond(ctx):
             corr.disagree(inp, show_rows([impl["full"]] if impl["full"] is not None else None),
                           show_rows([mod["full"]] if mod["full"] is not None else None), "get_full_tlist")
         if impl["rows"] != mod["rows"]:
-            if impl["rows"] is not None and impl["rows"] == mod["rows_v0"]:
+            if impl["rows"] is not None and impl["rows"] == mod["rows_v1"]:
+                saw_v1 += 1
+            elif impl["rows"] is not None and impl["rows"] == mod["rows_v0"]:
                 saw_v0 += 1
             corr.disagree(inp, show_rows(impl["rows"]), show_rows(mod["rows"]), "get_full_coeffs")
         if (impl["props"] is None) != (mod["slices"] is None):
@@ -934,6 +979,10 @@ def correspond(ctx):
     if saw_v0:
         ctx.notes.append("%d coefficient disagreements match the model of the code as found (get_full_coeffs_v0): "
                          "the tree under check does not contain fixes/C14-step-last-sample.diff" % saw_v0)
+    if saw_v1:
+        ctx.notes.append("%d coefficient disagreements match the model of the one-step advance "
+                         "(get_full_coeffs_v1): the tree under check does not contain "
+                         "fixes/C14-fill-coeff-repeated-points.diff" % saw_v1)
     corr.extra["file_cases"] = len(filecases)
     return corr
 
@@ -1055,6 +1104,29 @@ def classify(failure):
     return _CLASSIFY_MEMO[k]
 
 
+def _drop_repeats(inp):
+    """same step functions with the zero-length (or sub-tolerance) intervals of every pulse grid removed"""
+    out = json.loads(json.dumps(inp))
+    changed = False
+    for ch in out["channels"]:
+        if not (isinstance(ch["coeff"], list) and ch["tlist"] is not None):
+            continue
+        tl = [fr(x) for x in ch["tlist"]]
+        cf = [fr(x) for x in ch["coeff"]]
+        i = 0
+        while i + 1 < len(tl):
+            if tl[i + 1] - tl[i] <= TOL:
+                del tl[i]
+                if i < len(cf):
+                    del cf[i]
+                changed = True
+            else:
+                i += 1
+        ch["tlist"] = [enc(x) for x in tl]
+        ch["coeff"] = [enc(x) for x in cf]
+    return out, changed
+
+
 def _classify(failure):
     inp = failure.get("input")
     what = failure.get("what", "")
@@ -1076,6 +1148,15 @@ def _classify(failure):
                 return None
             if not again:
                 return "step-last-sample-leak"
+    if any(k in what for k in ("resampled coefficient", "analytic evolution", "valid input rejected")):
+        z, changed = _drop_repeats(inp)
+        if changed:
+            try:
+                again = oracle_case(z, solver=False, files=False, states=False)
+            except Exception:
+                return None
+            if not again:
+                return "fill-coeff-repeated-points"
     if "solver evolution" in what and in_property_domain(inp):
         # Processor.run_state caps the integrator step at T/10 only; an interval of the merged grid that is
         # shorter can be stepped over.  Inside the class iff the failure disappears with a step cap below the
@@ -1102,6 +1183,7 @@ def search(ctx, broken):
     pool += [gen_valid(rng, late=True) for _ in range(ctx.n(30, 100))]
     pool += [gen_consts(rng) for _ in range(ctx.n(30, 100))]
     pool += [gen_shared_labels(rng) for _ in range(ctx.n(40, 150))]
+    pool += [gen_repeated(rng) for _ in range(ctx.n(60, 200))]
     for inp in pool:
         try:
             fs = oracle_case(inp)
